@@ -754,6 +754,48 @@ fn diff_signature(scn: &C20Scn, _v: &Variant, got: &[u8], want: &[u8]) -> String
             return format!("cli-removed-less:{}", describe(&extra_kept));
         }
     }
+    if scn.mode != Mode::Clean {
+        // list modes: which elements are shown inside a Ready item?
+        let g = ready_ids(scn, &got_s);
+        let w = ready_ids(scn, &want_s);
+        let describe = |ids: Vec<u32>| -> String {
+            let mut v: Vec<String> = ids
+                .iter()
+                .filter_map(|id| scn.doc.elems().into_iter().find(|e| e.id == *id))
+                .map(|e| match (&e.kind, &e.name) {
+                    (doc::Kind::Rm, Some(AttrVal::Val(n))) => format!("marker[{}]", n),
+                    (doc::Kind::Tl, _) => "time-limited".to_string(),
+                    _ => "other".to_string(),
+                })
+                .collect();
+            v.sort();
+            v.dedup();
+            v.join("+")
+        };
+        let more: Vec<u32> = g.difference(&w).copied().collect();
+        let less: Vec<u32> = w.difference(&g).copied().collect();
+        if !more.is_empty() {
+            return format!("cli-lists-ready-more:{}", describe(more));
+        }
+        if !less.is_empty() {
+            return format!("cli-lists-ready-less:{}", describe(less));
+        }
+        // same tags shown: compare the number of Ready items
+        let count = |t: &str| -> usize {
+            if scn.json {
+                t.matches("\"current_status\":\"Ready\"").count()
+            } else {
+                t.split('\n').filter(|l| l.starts_with("--------") && l.contains("Ready")).count()
+            }
+        };
+        let (cg, cw) = (count(&got_s), count(&want_s));
+        if cg > cw {
+            return "cli-lists-ready-more:items".into();
+        }
+        if cg < cw {
+            return "cli-lists-ready-less:items".into();
+        }
+    }
     if got.len() < want.len() && want.starts_with(got) {
         return "truncated".into();
     }
@@ -761,6 +803,59 @@ fn diff_signature(scn: &C20Scn, _v: &Variant, got: &[u8], want: &[u8]) -> String
         return "trailing-bytes".into();
     }
     "different-bytes".into()
+}
+
+/// Ids of the elements whose opening tag is shown inside a *Ready* item of a list output
+/// (pretty or JSON).  Best effort, used only to name the kind of a difference.
+fn ready_ids(scn: &C20Scn, text: &str) -> BTreeSet<u32> {
+    let mut chunks: Vec<String> = Vec::new();
+    if scn.json {
+        if let Ok(serde_json::Value::Array(items)) = serde_json::from_str::<serde_json::Value>(text) {
+            for it in items {
+                if it.get("current_status").and_then(|s| s.as_str()) == Some("Ready") {
+                    chunks.push(it.get("annotated_code_block").and_then(|s| s.as_str()).unwrap_or("").to_string());
+                }
+            }
+        }
+    } else {
+        // items start with a header line "-------- [ n ]  Ready  --------" / "... Pending ..."
+        let mut cur: Option<String> = None;
+        for line in text.split('\n') {
+            if line.starts_with("--------") {
+                if let Some(c) = cur.take() {
+                    chunks.push(c);
+                }
+                if line.contains("Ready") {
+                    cur = Some(String::new());
+                }
+            } else if let Some(c) = cur.as_mut() {
+                c.push_str(line);
+                c.push('\n');
+            }
+        }
+        if let Some(c) = cur.take() {
+            chunks.push(c);
+        }
+    }
+    let mut ids = BTreeSet::new();
+    for c in chunks {
+        // strip ANSI colour sequences so that the attribute text is contiguous
+        let mut plain = String::new();
+        let mut it = c.chars().peekable();
+        while let Some(ch) = it.next() {
+            if ch == '\u{1b}' {
+                for x in it.by_ref() {
+                    if x == 'm' {
+                        break;
+                    }
+                }
+            } else {
+                plain.push(ch);
+            }
+        }
+        ids.extend(scn.doc.surviving_ids(&plain));
+    }
+    ids
 }
 
 // ---------------------------------------------------------------------------
